@@ -182,6 +182,6 @@ package icmp
 //@   ensures closureof(ret, "WithVPNmode$1") && capt(ret, "vpnMode") == vpnMode
 
 //@ func (*PacketProcessor).Results
-//@   props C03 C14 C16
+//@   props C03 C14 C16 C06 C08 C20
 //@   observe Chan
 //@   entry row chan: [call Chan(p.results) as (c)] when ret == c -> exit
